@@ -196,6 +196,11 @@ def keyLe (a b : Utxo) : Bool :=
   decide (a.btime < b.btime) ||
   (a.btime == b.btime && (natsLt a.txid b.txid || (a.txid == b.txid && decide (a.vout ≤ b.vout))))
 
+/-- "`a` stands strictly before `b`": the `less` function handed to `sort.Slice` — (block time, txid, vout), lexicographic, strict -/
+def lexLt (a b : Utxo) : Bool :=
+  decide (a.btime < b.btime) ||
+  (a.btime == b.btime && (natsLt a.txid b.txid || (a.txid == b.txid && decide (a.vout < b.vout))))
+
 /-- the comparator as found (block time, txid only): `b` is not strictly before `a` -/
 def keyLeAsFound (a b : Utxo) : Bool :=
   decide (a.btime < b.btime) || (a.btime == b.btime && !natsLt b.txid a.txid)
